@@ -42,6 +42,8 @@ type Source struct {
 	ZeroReads bool // may return (0, nil)
 	DataWithErr bool // the data before an error may be returned together with it
 	DataErrs  int
+	PauseOneIn  int // one read in PauseOneIn blocks for a quiet period first (0: never)
+	Pauses      int
 	quiet       int
 	QuietBursts int
 	fruitless   int
@@ -112,6 +114,13 @@ func (r *Source) Read(p []byte) (int, error) {
 		return 0, io.EOF
 	}
 	r.fruitless = 0
+	if r.PauseOneIn > 0 && r.T.D(r.PauseOneIn) == 0 {
+		// a quiet line: the read blocks for a while of simulated time, then data comes
+		d := []time.Duration{20 * time.Millisecond, 150 * time.Millisecond, 1200 * time.Millisecond, 30 * time.Second}[r.T.D(4)]
+		r.Pauses++
+		time.Sleep(d)
+		rt.Yield("source.Read (after a quiet period)")
+	}
 	if r.quiet > 0 {
 		// inside a burst of consecutive empty reads (a quiet line)
 		r.quiet--
